@@ -132,12 +132,18 @@ func (v *View) checkC09(res *Result) {
 		}
 		res.Obs["c09.stop_ok"]++
 		// interval until the next Start call
+		// (a Start issued while the stop call was still running makes the outcome a
+		// race between the two calls; the finality clauses speak of "after it returns")
 		end := len(v.Ev)
 		for _, b := range v.APIs {
-			if b.Inst == a.Inst && b.API == "Start" && b.Call > a.Ret {
+			if b.Inst == a.Inst && b.API == "Start" && b.Call > a.Call && b.Result == "ok" {
 				end = b.Call
 				break
 			}
+		}
+		if end < a.Ret {
+			res.Obs["c09.start_during_stop"]++
+			continue
 		}
 		for j := a.Ret + 1; j < end; j++ {
 			e := v.Ev[j]
